@@ -312,8 +312,12 @@ def replay(rep, path):
     body = json.load(open(path))
     t = body["detail"]["trace"]
     sched = [(e["p"], e["op"]) for e in t["ev"]]
-    tr = schedule_run(t["scenario"], {p: o for p, o in t["ops"].items()}, sched, "replay")
-    rej = _validate_p([tr])
+    rej = []
+    for attempt in range(4):        # the harness alternates temp-directory placement and old-version strings between worlds
+        tr = schedule_run(t["scenario"], {p: o for p, o in t["ops"].items()}, sched, "replay")
+        rej = _validate_p([tr])
+        if rej:
+            break
     for e in tr["ev"]:
         print(e)
     if rej:
